@@ -94,7 +94,7 @@ impl Cors {
         let origin_value = format!("{}", origin.value);
 
         // the origin has to be exactly one of the configured origins
-        let is_valid_origin = cors.allow_origins.iter().any(|allowed| allowed.trim() == origin_value);
+        let is_valid_origin = cors.allow_origins.iter().any(|allowed| allowed.trim().len() != 0 && allowed.trim() == origin_value);
         if !is_valid_origin {
             return Ok(headers)
         }
@@ -166,7 +166,7 @@ impl Cors {
         let origin_value = format!("{}", origin.value);
 
         // the origin has to be exactly one of the comma separated configured origins
-        let is_valid_origin = allow_origins.split(",").any(|allowed| allowed.trim() == origin_value);
+        let is_valid_origin = allow_origins.split(",").any(|allowed| allowed.trim().len() != 0 && allowed.trim() == origin_value);
         if !is_valid_origin {
             return Ok(headers)
         }
